@@ -30,7 +30,9 @@ Proof. repeat split; reflexivity. Qed.
 (* decision logic of concatenate, the methods it calls on the inputs / the result, `@`, slicing *)
 Example tie_C03_concatenate :
   Src.h_pulse_sequence_concatenate = Expected.h_pulse_sequence_concatenate
-  /\ raises_pulse_sequence_concatenate = [("ValueError", "calc_filter_function"); ("ValueError", "calc_pulse_correlation_FF")]
+  /\ raises_pulse_sequence_concatenate =
+       [("TypeError", "not hasattr(pulses[0], 'c_opers')");        (* a single non-PulseSequence element: outside the model *)
+        ("ValueError", "calc_filter_function"); ("ValueError", "calc_pulse_correlation_FF")]
   /\ Src.h_pulse_sequence_PulseSequence___matmul__ = Expected.h_pulse_sequence_PulseSequence___matmul__
   /\ Src.h_pulse_sequence_PulseSequence___getitem__ = Expected.h_pulse_sequence_PulseSequence___getitem__
   /\ Src.h_pulse_sequence_PulseSequence_cache_filter_function = Expected.h_pulse_sequence_PulseSequence_cache_filter_function
